@@ -53,6 +53,10 @@ def mixed_class():
             mesh = self.mesh
             for d in spec["dims"]:
                 groups += mesh.Get_list_groupElem(d)
+            if spec.get("foreign"):
+                # boundary groups the user built himself (same element type and count as the mesh's own group, elements
+                # in another order): rows and columns must come from the group that carries the values
+                groups = [self._foreign_copy(g, spec["foreign"]) if g.dim < max(spec["dims"]) and g.dim > 0 else g for g in groups]
             for gi, g in enumerate(groups):
                 n = g.nPe * dof_n
                 slots = []
@@ -70,6 +74,16 @@ def mixed_class():
                 out[g] = tuple(slots)
             self.last[str(problemType)] = [(g.connect, tuple(None if a is None else np.array(a) for a in t)) for g, t in out.items()]
             return out
+
+        def _foreign_copy(self, g, seed):
+            from EasyFEA.FEM import GroupElemFactory
+
+            cache = self.__dict__.setdefault("_foreign_groups", {})
+            key = (id(g), seed)
+            if key not in cache:
+                order = arr_rng(seed, g.Ne).permutation(g.Ne)
+                cache[key] = (g, GroupElemFactory.Create(g.elemType, np.asarray(g.connect)[order].copy(), np.asarray(self.mesh.coord).copy()))
+            return cache[key][1]
 
         def Save_Iter(self, iter=None):
             return super().Save_Iter(iter)
@@ -128,6 +142,7 @@ class AsmWorld(World):
                 "slots": {},
                 "vseed": int(rng.integers(1 << 30)),
                 "complex": bool(rng.random() < 0.25),
+                "foreign": int(rng.integers(1, 1 << 20)) if rng.random() < 0.3 else 0,
             }
         else:
             kind = simlib.SIM_MODEL[actor][0]
